@@ -46,6 +46,46 @@ func stableAlloc(al *ssa.Alloc) bool {
 	return true
 }
 
+// localOnlyAlloc: a non-escaping struct/scalar local whose address (and the addresses of its fields) is used only
+// for loads and stores in this function - never passed to a call, stored, or sliced.
+func localOnlyAlloc(al *ssa.Alloc) bool {
+	pt, ok := al.Type().Underlying().(*types.Pointer)
+	if !ok {
+		return false
+	}
+	switch u := pt.Elem().Underlying().(type) {
+	case *types.Array, *types.Slice, *types.Map, *types.Chan, *types.Signature, *types.Interface:
+		return false
+	case *types.Struct:
+		if u.NumFields() > 24 {
+			return false
+		}
+	}
+	var ok2 func(v ssa.Value, depth int) bool
+	ok2 = func(v ssa.Value, depth int) bool {
+		if depth > 6 || v.Referrers() == nil {
+			return false
+		}
+		for _, r := range *v.Referrers() {
+			switch r := r.(type) {
+			case *ssa.Store:
+				if r.Val == v {
+					return false
+				}
+			case *ssa.UnOp, *ssa.DebugRef:
+			case *ssa.FieldAddr:
+				if !ok2(r, depth+1) {
+					return false
+				}
+			default:
+				return false
+			}
+		}
+		return true
+	}
+	return ok2(al, 0)
+}
+
 func readOnlyFreeVar(fv *ssa.FreeVar, depth int) bool {
 	if depth > 8 || fv.Referrers() == nil {
 		return false
@@ -78,7 +118,16 @@ func (e *Encoder) stableCells(exclude map[*ssa.BasicBlock]bool) []*ssa.Alloc {
 		e.stable = map[*ssa.Alloc]bool{}
 		for _, b := range e.fn.Blocks {
 			for _, in := range b.Instrs {
-				if al, ok := in.(*ssa.Alloc); ok && al.Heap && stableAlloc(al) {
+				al, ok := in.(*ssa.Alloc)
+				if !ok {
+					continue
+				}
+				if al.Heap && stableAlloc(al) {
+					e.stable[al] = true
+				}
+				// a stack variable (go/ssa: its address does not escape the function) that is only accessed through
+				// its own field addresses cannot be changed by any callee either
+				if !al.Heap && localOnlyAlloc(al) {
 					e.stable[al] = true
 				}
 			}
